@@ -10,6 +10,7 @@ type cloner struct {
 	objectstash map[*objectStash]*objectStash
 	dclstash    map[*dclStash]*dclStash
 	fnstash     map[*fnStash]*fnStash
+	pending     []*object // Objects that have their copy allocated but not filled in yet.
 }
 
 func (rt *runtime) clone() *runtime {
@@ -71,11 +72,13 @@ func (rt *runtime) clone() *runtime {
 	}
 
 	out.eval = c.object(rt.eval)
+	c.finish()
 	out.globalObject.prototype = out.global.ObjectPrototype
 
 	// Not sure if this is necessary, but give some help to the GC
 	c.runtime = nil
 	c.obj = nil
+	c.pending = nil
 	c.objectstash = nil
 	c.dclstash = nil
 	c.fnstash = nil
@@ -89,7 +92,19 @@ func (c *cloner) object(in *object) *object {
 	}
 	out := &object{}
 	c.obj[in] = out
-	return in.objectClass.clone(in, out, c)
+	// The copy is filled in by finish, not here: objects can be nested as deeply as a script
+	// cares to build them ([[[...]]], a long prototype chain), the Go stack is finite.
+	c.pending = append(c.pending, in)
+	return out
+}
+
+// finish fills in the objects that object has allocated, and those that turn up on the way.
+func (c *cloner) finish() {
+	for len(c.pending) > 0 {
+		in := c.pending[len(c.pending)-1]
+		c.pending = c.pending[:len(c.pending)-1]
+		in.objectClass.clone(in, c.obj[in], c)
+	}
 }
 
 func (c *cloner) dclStash(in *dclStash) (*dclStash, bool) {
